@@ -358,7 +358,11 @@ Definition agree_obs (head : bool) (u : uw) (o : obs) : bool :=
      match all_plain (r_segs u) with
      | Some b => beq b (o_body o)
      | None => match r_segs u with
-               | [SG ws] => obeq (o_gunz o) (Some (concat ws))
+               | [SG ws] => match r_cl u with
+                            | [] => obeq (o_gunz o) (Some (concat ws))
+                            | _ => true   (* compressed bytes under a committed identity Content-Length
+                                             (Flush before the header): net/http truncates, not modelled *)
+                            end
                | _ => true     (* plain and compressed bytes interleaved: order on the wire not modelled *)
                end
      end).
